@@ -59,7 +59,7 @@ def _truth_tests(fn: ast.FunctionDef):
             yield from ((x, n) for x in leaves(n.test))
 
 
-def rule_index_truthiness(ck: Check, repo: Repo, folder: Folder) -> None:
+def rule_index_truthiness(ck: Check, repo: Repo, folder: Folder, floor: int = 2) -> None:
     r = ck.rule("R1", "a value produced by str.index/find (range includes 0) is never tested by truthiness")
     n_index_vars = 0
     for q, fn in sorted(repo.functions.items()):
@@ -82,7 +82,8 @@ def rule_index_truthiness(ck: Check, repo: Repo, folder: Folder) -> None:
                     r.violation(q, f"truthiness test of index variable {name_node.id}",
                                 f"`{ast.unparse(ctx.test)[:60]}`: {name_node.id} comes from str.index()/find() and can be 0,"
                                 f" which the test confuses with 'not found'", repo.loc(ctx))
-    r.floor(2, "index-valued variables in the package", got=n_index_vars)
+    if floor:
+        r.floor(floor, "index-valued variables in the package", got=n_index_vars)
     # positive control: the rule must recognise the idiom on an embedded example
     ctl = ast.parse("def f(t):\n    i = None\n    if 'x' in t:\n        i = t.index('x')\n    if not i:\n        return t\n    return t[:i]\n").body[0]
     hit = [n.id for n, _ in _truth_tests(ctl)]
@@ -234,12 +235,136 @@ def rule_unbounded(ck: Check, repo: Repo, rid: str = "R5") -> None:
     joins = [b for b in ast.walk(fn) if isinstance(b, ast.BinOp) and isinstance(b.op, ast.Add)
              and isinstance(b.left, ast.Subscript) and isinstance(b.right, ast.Call) and ast.unparse(b.right.func) == "filter_ignore_block"]
     r.instance("joins", {"direct_concatenations": len(joins)}, q)
+    sub = _regex_filter_call(repo, fn)
+    if sub is not None and isinstance(sub[1], ast.Constant) and sub[1].value == "":
+        r.violation(q, "the text before a block and the text after it are concatenated directly",
+                    "the block is replaced by the empty string: when the start marker follows a tag on the same line and the end marker"
+                    " precedes another tag on its line, the two tags end up on one line and are read as ONE value (neither contributes)",
+                    repo.loc(sub[5]))
     if joins:
         r.violation(q, "the text before a block and the text after it are concatenated directly",
                     f"`{ast.unparse(joins[0])[:70]}`: when the start marker follows a tag on the same line and the end marker precedes"
                     f" another tag on its line, the two tags end up on one line and are read as ONE value (neither contributes)",
                     repo.loc(joins[0]))
 
+
+
+# ------------------------------------------------------------------ R2 (regex family)
+def _regex_filter_call(repo: Repo, fib: ast.FunctionDef):
+    """`return re.sub(P, R, text[, count[, flags]])` / `return P.sub(R, text[, count])` as the whole body -> (P, R, subject, count, flags, call)."""
+    from ..rules import resolve_deep
+    body = [st for st in fib.body if not (isinstance(st, ast.Expr) and isinstance(st.value, ast.Constant))]
+    rets = [n for n in ast.walk(fib) if isinstance(n, ast.Return)]
+    if len(rets) != 1 or not body or body[-1] is not rets[0] or rets[0].value is None:
+        return None
+    call = resolve_deep(fib, rets[0].value)
+    if not (isinstance(call, ast.Call) and isinstance(call.func, ast.Attribute) and call.func.attr in ("sub", "subn")):
+        return None
+    kws = {k.arg: k.value for k in call.keywords if k.arg}
+    if ast.unparse(call.func.value) == "re":
+        a = list(call.args) + [None] * 5
+        pat, repl, subj = kws.get("pattern", a[0]), kws.get("repl", a[1]), kws.get("string", a[2])
+        count, flags = kws.get("count", a[3]), kws.get("flags", a[4])
+    else:
+        a = list(call.args) + [None] * 4
+        pat, repl, subj = call.func.value, kws.get("repl", a[0]), kws.get("string", a[1])
+        count, flags = kws.get("count", a[2]), None
+    return pat, repl, subj, count, flags, rets[0]
+
+
+def rule_regex_filter(ck: Check, repo: Repo, folder: Folder) -> None:
+    """The filter written as ONE regular-expression substitution.  `START .*? (END | end-of-text)` with DOTALL, replaced
+    everywhere (count 0) by the empty string, removes exactly: from each start marker that is not inside a block up to the
+    next end marker, or up to the end of the text - the specified behaviour (blocks do not nest, a stray end marker is
+    ordinary text, any number of blocks).  Each deviation from that shape is a named violation."""
+    import re as _re
+    import re._parser as sp  # type: ignore
+    import re._constants as sc  # type: ignore
+    from ..fold import Regex
+    r = ck.rule("R2", "filter_ignore_block (substitution form): START .*? (END | end of text), DOTALL, every occurrence, replaced by nothing")
+    q = f"{EX}.filter_ignore_block"
+    fib = repo.func(q)
+    ck.analysed_fn(q)
+    pat, repl, subj, count, flags, ret = _regex_filter_call(repo, fib)
+    mod = repo.module(EX)
+    pv = folder.fold(pat, mod, folder.env(EX))
+    if isinstance(pv, Regex):
+        pattern, pflags = pv.pattern, pv.flags
+    elif isinstance(pv, str):
+        pattern, pflags = pv, 0
+    else:
+        raise AnalysisError(f"filter_ignore_block: the substitution pattern `{ast.unparse(pat)[:60]}` does not fold to a constant")
+    loc = repo.loc(ret)
+    start = folder.known(EX, "REUSE_IGNORE_START")
+    end = folder.known(EX, "REUSE_IGNORE_END")
+    r.instance("substitution", {"pattern": pattern, "compiled_flags": pflags, "count": ast.unparse(count) if count is not None else None,
+                                "flags": ast.unparse(flags) if flags is not None else None, "replacement": ast.unparse(repl) if repl is not None else None}, q)
+    if subj is None or ast.unparse(subj) != fib.args.args[0].arg:
+        r.violation(q, "the substitution does not run on the text given", f"subject is `{ast.unparse(subj) if subj is not None else None}`", loc)
+    if repl is None or not (isinstance(repl, ast.Constant) and repl.value == ""):
+        r.violation(q, "an ignore block is replaced by something other than nothing", f"replacement `{ast.unparse(repl) if repl is not None else None}`", loc)
+    # every occurrence: the count position must be absent or 0 - a FLAG in the count position is the classic slip
+    if count is not None:
+        cv = folder.fold(count, mod, folder.env(EX))
+        txt = ast.unparse(count)
+        if not (isinstance(cv, int) and not isinstance(cv, bool) and cv == 0 and not txt.startswith("re.")):
+            n = f" = {int(cv)}" if isinstance(cv, int) else ""
+            r.violation(q, f"only a bounded number of ignore blocks is removed (count `{txt}`{n})",
+                        f"the 4th positional parameter of re.sub (3rd of Pattern.sub) is `count`, not `flags`: with `{txt}`{n} the blocks after"
+                        f" the first{n.replace(' = ', ' ')} stay in the text and the tags inside them are read - 'any number of blocks may follow one another'", loc)
+    if flags is not None:
+        fv = folder.fold(flags, mod, folder.env(EX))
+        if isinstance(fv, int):
+            pflags |= int(fv)
+        if isinstance(pv, Regex) and pv.flags and False:
+            pass
+    try:
+        tree = sp.parse(pattern, pflags)
+    except Exception as err:  # noqa: BLE001
+        raise AnalysisError(f"filter_ignore_block: pattern does not parse: {err}")
+    eff = pflags | tree.state.flags
+    items = list(tree)
+    lit = ""
+    i = 0
+    while i < len(items) and items[i][0] is sc.LITERAL:
+        lit += chr(items[i][1])
+        i += 1
+    if lit != start:
+        r.violation(q, "a block does not begin exactly at the start marker", f"pattern begins with {lit!r}, marker is {start!r}", loc)
+    body = items[i] if i < len(items) else (None, None)
+    i += 1
+    if body[0] is sc.MAX_REPEAT and body[1][2][0][0] is sc.ANY:
+        r.violation(q, "a block runs to the LAST end marker of the text (greedy .*)",
+                    "`S a E b S c E`: everything between the first start and the last end marker is removed, the tag `b` between two blocks is lost", loc)
+    elif not (body[0] is sc.MIN_REPEAT and body[1][0] == 0 and body[1][1] == sc.MAXREPEAT and [x[0] for x in body[1][2]] == [sc.ANY]):
+        r.violation(q, "the inside of a block is not `.*?`", f"{body}", loc)
+    if not eff & _re.DOTALL:
+        r.violation(q, "a block that spans several lines is not removed (DOTALL missing)",
+                    "`.` does not match a newline: `REUSE-IgnoreStart\\nSPDX-License-Identifier: X\\nREUSE-IgnoreEnd` keeps its tag", loc)
+    tail = items[i:] if i <= len(items) else []
+    # (END | \Z): a literal END alone forgets the unterminated block
+    def lits(seq):
+        return "".join(chr(x[1]) for x in seq if x[0] is sc.LITERAL) if all(x[0] is sc.LITERAL for x in seq) else None
+    ok_tail = False
+    unterminated = False
+    if len(tail) == 1 and tail[0][0] is sc.SUBPATTERN:
+        tail = list(tail[0][1][3])
+    if len(tail) == 1 and tail[0][0] is sc.BRANCH:
+        alts = [list(a) for a in tail[0][1][1]]
+        has_end = any(lits(a) == end for a in alts)
+        has_eot = any(len(a) == 1 and a[0][0] is sc.AT and a[0][1] in (sc.AT_END_STRING,) or
+                      (len(a) == 1 and a[0][0] is sc.AT and a[0][1] is sc.AT_END and not eff & _re.MULTILINE) for a in alts)
+        ok_tail = has_end and has_eot and len(alts) == 2
+        unterminated = has_eot
+    elif lits(tail) == end:
+        ok_tail, unterminated = False, False
+        r.violation(q, "a block without an end marker hides nothing",
+                    "the pattern requires the end marker: `tag REUSE-IgnoreStart tag2` with no end marker keeps tag2, which the statement says is ignored up to the end of the scanned text", loc)
+        ok_tail = True
+    if not ok_tail:
+        r.violation(q, "a block does not end at the next end marker or the end of the text", f"pattern tail {tail}", loc)
+    if eff & _re.IGNORECASE:
+        r.violation(q, "markers are matched case-insensitively", "`reuse-ignorestart` in ordinary text opens a block", loc)
 
 
 def run(ck: Check, repo: Repo) -> None:
@@ -258,6 +383,15 @@ def run(ck: Check, repo: Repo) -> None:
     uses_index = any(isinstance(n, ast.Call) and isinstance(n.func, ast.Attribute) and n.func.attr in ("index", "find")
                      for n in ast.walk(fib))
     recursive = any(isinstance(n, ast.Call) and ast.unparse(n.func) == "filter_ignore_block" for n in ast.walk(fib))
+    regex_family = _regex_filter_call(repo, fib) is not None
+    if regex_family:
+        rule_index_truthiness(ck, repo, folder, floor=0)  # the substitution form has no index variables of its own
+        rule_regex_filter(ck, repo, folder)
+        rule_filter_first(ck, repo)
+        rule_unbounded(ck, repo)
+        from . import c02 as _c02
+        _c02.rule_window(ck, repo, folder, "R4")
+        return
     if not (uses_index and recursive):
         raise AnalysisError("filter_ignore_block no longer has the index-and-recurse structure that the branch table models"
                             " (marker positions by str.index, recursion on the rest): this analyser cannot decide the new"
